@@ -355,7 +355,50 @@ fail_if_divisible_by multiply_accumulate inplace_pow inplace_inverse set
 to_bytes""".split())
 
 
+def _re_compile(i, args, kw, st, node):
+    """re.compile with a constant pattern: the compiled pattern is a concrete value (the checker's `re`, i.e. the
+    standard library's semantics of the pattern text; nothing of the repository runs)."""
+    import re as _re
+    if args and isinstance(args[0], (str, bytes)) and all(isinstance(a, int) for a in args[1:]):
+        try:
+            return _re.compile(*args)
+        except Exception:
+            i._diverged = i.do_raise("re.error", st, node)
+            return UNK
+    return UNK
+
+
+def _re_func(kind):
+    def f(i, args, kw, st, node):
+        import re as _re
+        if len(args) >= 2 and isinstance(args[0], (str, bytes)) and isinstance(args[1], (str, bytes, bytearray)) and type(args[0]) is type(
+                bytes(args[1]) if isinstance(args[1], bytearray) else args[1]):
+            try:
+                return getattr(_re, kind)(args[0], bytes(args[1]) if isinstance(args[1], bytearray) else args[1], *[a for a in args[2:] if isinstance(a, int)])
+            except Exception:
+                return UNK
+        return UNK
+    return f
+
+
 def call_method(interp, base, attr, args, kwargs, st, node):
+    import re as _re
+    if isinstance(base, _re.Pattern):
+        if attr in ("match", "search", "fullmatch", "findall", "split", "sub") and args and all(isinstance(a, (str, bytes, int)) for a in args):
+            try:
+                return getattr(base, attr)(*args)
+            except TypeError:
+                interp._diverged = interp.do_raise("TypeError", st, node)
+                return UNK
+        return UNK
+    if isinstance(base, _re.Match):
+        if attr in ("group", "groups", "start", "end", "span", "groupdict") and all(isinstance(a, (int, str)) for a in args):
+            try:
+                return getattr(base, attr)(*args)
+            except IndexError:
+                interp._diverged = interp.do_raise("IndexError", st, node)
+                return UNK
+        return UNK
     # dict -----------------------------------------------------------------
     if isinstance(base, dict):
         if attr in ("get", "pop", "setdefault"):
@@ -1082,6 +1125,7 @@ EXT_MODELS = {
     "callable": m_unknown("bool"), "id": m_unknown("int"),
     "repr": m_unknown("str"), "super": m_super,
     "struct.pack": m_struct_pack, "struct.unpack": m_struct_unpack,
+    "re.compile": _re_compile, "re.match": _re_func("match"), "re.search": _re_func("search"), "re.fullmatch": _re_func("fullmatch"),
     "struct.calcsize": lambda i, a, k, s, n: struct.calcsize(a[0]) if a and isinstance(a[0], str) else Unknown("int"),
     "binascii.unhexlify": m_unhexlify, "binascii.hexlify": m_hexlify,
     "binascii.a2b_hex": m_unhexlify, "binascii.b2a_hex": m_hexlify,
